@@ -20,14 +20,14 @@ import common
 import offline_util as U
 from c06 import tagged_equal
 
-ANSI = re.compile(r"\x1b\[[0-9;]*[A-Za-z]")
+ANSI = re.compile(r"\x1b\[[0-9;?]*[A-Za-z]")
 PROBE_NAMES = ["a", "b", "c", "d", "f", "g", "t", "x"]
 
 
 class Repl:
-    def __init__(self, binary):
+    def __init__(self, binary, term="dumb"):
         self.m, s = pty.openpty()
-        env = dict(common.ENV, TERM="dumb")
+        env = dict(common.ENV, TERM=term)
         self.p = subprocess.Popen([binary], stdin=s, stdout=s, stderr=s, close_fds=True, env=env, cwd="/")
         os.close(s)
         self.buf = b""
@@ -44,7 +44,8 @@ class Repl:
                 if not d:
                     return False
                 self.buf += d
-                if until_prompt and (self.buf.endswith(b"> ") or self.buf.endswith(b"... ")):
+                tail = ANSI.sub("", self.buf[-80:].decode("utf-8", "replace")).rstrip("\r")
+                if until_prompt and (tail.endswith("> ") or tail.endswith("... ")):
                     # the prompt is the last thing the REPL writes before it waits
                     r2, _, _ = select.select([self.m], [], [], 0.01)
                     if not r2:
